@@ -28,7 +28,8 @@ RULE = ("generated interfaces x one random rendering x a random partition into 1
         ' ; server-root-relative locations'
         ' ; one document store kept across loads; locations differing in case; one namespace in an inline block and a wsdl:import-ed document'
         ' ; imports that resolve to nothing; what an earlier load fetched'
-        ' ; doctor imports; an inherited prefix across documents')
+        ' ; doctor imports; an inherited prefix across documents'
+        ' ; a doctor filter naming the imported namespace')
 ASSUMPTIONS = ["an out-of-line schema document refers only to out-of-line schema documents (it can name them by "
                "schemaLocation); an included part does not need declarations of its includer and namespaces on an "
                "import cycle are not split by includes (known finding D35 covers the excluded shape)",
